@@ -1,12 +1,556 @@
-//! C15 — not built yet (stub).
+//! C15 — the committed unspent-output bitmap is independent of the path taken.
 
 use crate::engine::*;
-use serde_json::Value;
+use crate::refmmr::{self, RefMmr};
+use crate::world::gen::*;
+use crate::world::*;
+use crate::{ensure, fail};
+use grin_chain::txhashset::{self, PMMRHandle, TxHashSet};
+use grin_chain::types::Tip;
+use grin_chain::ChainStore;
+use grin_core::core::hash::{Hash, Hashed};
+use grin_core::core::pmmr;
+use grin_core::core::{Block, BlockHeader, CommitWrapper, Inputs, KernelFeatures, Output, OutputFeatures, TransactionBody, TxKernel};
+use grin_core::pow::{Difficulty, Proof};
+use grin_core::ser::ProtocolVersion;
+use grin_util::secp::pedersen::{Commitment, RangeProof};
+use proptest::prelude::*;
+use serde_derive::{Deserialize, Serialize};
+use serde_json::{json, Value};
+use std::collections::BTreeMap;
+use std::path::Path;
+use std::sync::Arc;
 
-pub fn run(_ctx: &Ctx) -> HResult<()> {
-	Err(HarnessError("C15 check not built yet".into()))
+// ------------------------------------------------------------------ reference
+
+/// root of the bitmap accumulator computed from scratch from a set of unspent
+/// leaf indices: 1024-bit chunks 0..=chunk(max idx), each serialized as 128
+/// bytes (most significant bit first), bagged as an MMR by the definition
+pub fn ref_bitmap_root(unspent: impl Iterator<Item = u64>) -> refmmr::H32 {
+	let idx: Vec<u64> = unspent.collect();
+	let Some(max) = idx.iter().max().copied() else {
+		return [0u8; 32];
+	};
+	let n_chunks = (max / 1024 + 1) as usize;
+	let mut chunks = vec![vec![0u8; 128]; n_chunks];
+	for i in idx {
+		let c = (i / 1024) as usize;
+		let b = (i % 1024) as usize;
+		chunks[c][b / 8] |= 0x80 >> (b % 8);
+	}
+	RefMmr::build(&chunks).root()
 }
 
-pub fn replay(_ctx: &Ctx, _part: &str, _case: &Value) -> PResult {
+fn h(x: &refmmr::H32) -> Hash {
+	Hash::from_vec(&x[..])
+}
+
+// ------------------------------------------------------------------ part "ext": extension level, many outputs
+
+#[derive(Clone, Debug, Serialize, Deserialize)]
+pub enum SpendPat {
+	/// oldest unspent outputs
+	Oldest(u16),
+	/// outputs around a chunk boundary (1023/1024/2047/2048 …)
+	Boundary(u8),
+	/// everything unspent in one chunk
+	WholeChunk(u8),
+	/// outputs of the last (partial) chunk
+	Last(u16),
+	/// scattered picks
+	Picks(Vec<u16>),
+	/// everything from the start of chunk k to the end (leaves trailing all-zero chunks,
+	/// so the next outputs land after a gap)
+	AllFrom(u8),
+	None,
+}
+
+#[derive(Clone, Debug, Serialize, Deserialize)]
+pub enum EOp {
+	/// apply a block creating `n_out` outputs and spending by pattern
+	Apply { n_out: u16, spend: SpendPat },
+	/// rewind `k` blocks (and continue from there: the rewound blocks are gone)
+	Rewind { k: u8 },
+	Reopen,
+}
+
+#[derive(Clone, Debug, Serialize, Deserialize)]
+pub struct ECase {
+	pub salt: u32,
+	pub ops: Vec<EOp>,
+}
+
+fn spend_pat() -> impl Strategy<Value = SpendPat> {
+	prop_oneof![
+		3 => (1u16..400).prop_map(SpendPat::Oldest),
+		3 => (0u8..8).prop_map(SpendPat::Boundary),
+		2 => (0u8..6).prop_map(SpendPat::WholeChunk),
+		3 => (1u16..300).prop_map(SpendPat::Last),
+		3 => prop::collection::vec(any::<u16>(), 1..40).prop_map(SpendPat::Picks),
+		3 => (0u8..6).prop_map(SpendPat::AllFrom),
+		2 => Just(SpendPat::None),
+	]
+}
+
+pub fn ecase() -> impl Strategy<Value = ECase> {
+	(
+		any::<u32>(),
+		prop::collection::vec(
+			prop_oneof![
+				12 => (prop_oneof![3 => 1u16..60, 3 => 200u16..700, 1 => Just(1024u16), 1 => Just(1023u16)], spend_pat()).prop_map(|(n_out, spend)| EOp::Apply { n_out, spend }),
+				4 => (1u8..4).prop_map(|k| EOp::Rewind { k }),
+				1 => Just(EOp::Reopen),
+			],
+			4..16,
+		),
+	)
+		.prop_map(|(salt, ops)| ECase { salt, ops })
+}
+
+struct Low {
+	dir: std::path::PathBuf,
+	store: Arc<ChainStore>,
+	txhashset: TxHashSet,
+	header_pmmr: PMMRHandle<BlockHeader>,
+}
+
+fn open_low(dir: &Path) -> Result<Low, String> {
+	let store = Arc::new(ChainStore::new(&dir.to_string_lossy(), None).map_err(|e| format!("{:?}", e))?);
+	let txhashset = TxHashSet::open(dir.to_string_lossy().to_string(), store.clone(), None).map_err(|e| format!("{:?}", e))?;
+	let header_pmmr = PMMRHandle::new(dir.join("header").join("header_head"), false, ProtocolVersion(1), None).map_err(|e| format!("{:?}", e))?;
+	Ok(Low {
+		dir: dir.to_path_buf(),
+		store,
+		txhashset,
+		header_pmmr,
+	})
+}
+
+fn synth_commit(salt: u32, n: u64) -> Commitment {
+	let x = refmmr::blake(&[b"c15-commit", &salt.to_be_bytes(), &n.to_be_bytes()]);
+	let mut v = vec![0x08 + (x[0] & 1)];
+	v.extend_from_slice(&x[..32]);
+	Commitment::from_vec(v)
+}
+
+fn dummy_proof() -> RangeProof {
+	RangeProof {
+		proof: [0u8; grin_util::secp::constants::MAX_PROOF_SIZE],
+		plen: grin_util::secp::constants::MAX_PROOF_SIZE,
+	}
+}
+
+/// model of one synthetic block
+#[derive(Clone)]
+struct MBlock {
+	header: BlockHeader,
+	/// unspent leaf indices after this block
+	unspent: BTreeMap<u64, Commitment>,
+	n_outputs_total: u64,
+}
+
+pub fn ext_case(ctx: &Ctx, c: &ECase, counting: bool) -> PResult {
+	init_thread();
+	// Synthetic blocks of up to 1024 outputs must be readable back from the
+	// database during rewind; the body reader bounds the counts by the block
+	// weight limit, which is 250 on AutomatedTesting (11 outputs). Use the
+	// mainnet limits for this part (thread-local; nothing here validates PoW).
+	grin_core::global::set_local_chain_type(grin_core::global::ChainTypes::Mainnet);
+	let r = ext_case_inner(ctx, c, counting);
+	grin_core::global::set_local_chain_type(grin_core::global::ChainTypes::AutomatedTesting);
+	r
+}
+
+fn ext_case_inner(ctx: &Ctx, c: &ECase, counting: bool) -> PResult {
+	let ev = &ctx.ev;
+	let dir = ctx.scratch_dir("c15e");
+	// let the chain create the genesis state, then drive the unit-of-work API directly
+	{
+		let cb = ChainBox::open(&dir).map_err(|e| Fail::new("init-fresh", e))?;
+		let mut cb = cb;
+		cb.close();
+		std::mem::forget(cb);
+	}
+	let mut low = open_low(&dir).map_err(|e| Fail::new("harness:open-low", e))?;
+	let genesis = genesis_block();
+	let mut chain: Vec<MBlock> = vec![MBlock {
+		header: genesis.header.clone(),
+		unspent: BTreeMap::new(),
+		n_outputs_total: 0,
+	}];
+	let mut counter = 0u64;
+	let (mut max_chunks, mut crossed_back, mut reopened) = (0u64, false, false);
+	let mut gap = false;
+	let check = |low: &Low, m: &MBlock, when: &str| -> PResult {
+		let roots = low.txhashset.roots().map_err(|e| Fail::new("roots-err", format!("{:?}", e)))?;
+		let want = h(&ref_bitmap_root(m.unspent.keys().cloned()));
+		ensure!(
+			roots.output_roots.bitmap_root == want,
+			"bitmap-root-differs-from-scratch",
+			"{}: bitmap root {:?} != root computed from scratch over the {} unspent outputs ({:?}); outputs ever {}, chunks {}",
+			when,
+			roots.output_roots.bitmap_root,
+			m.unspent.len(),
+			want,
+			m.n_outputs_total,
+			m.unspent.keys().max().map(|x| x / 1024 + 1).unwrap_or(0)
+		);
+		Ok(())
+	};
+	for (i, op) in c.ops.iter().enumerate() {
+		match op {
+			EOp::Apply { n_out, spend } => {
+				let prev = chain.last().unwrap().clone();
+				let total = prev.n_outputs_total;
+				// choose spends among the currently unspent indices
+				let keys: Vec<u64> = prev.unspent.keys().cloned().collect();
+				let mut spend_idx: Vec<u64> = match spend {
+					SpendPat::None => vec![],
+					SpendPat::Oldest(n) => keys.iter().take(*n as usize).cloned().collect(),
+					SpendPat::Last(n) => keys.iter().rev().take(*n as usize).cloned().collect(),
+					SpendPat::WholeChunk(k) => {
+						let nch = total / 1024 + 1;
+						let ch = *k as u64 % nch;
+						keys.iter().filter(|x| **x / 1024 == ch).cloned().collect()
+					}
+					SpendPat::Boundary(k) => {
+						let nb = (total / 1024).max(1);
+						let b = (1 + *k as u64 % nb) * 1024;
+						keys.iter().filter(|x| **x + 3 >= b && **x < b + 3).cloned().collect()
+					}
+					SpendPat::Picks(p) => p.iter().filter_map(|x| pick(&keys, *x).cloned()).collect(),
+					SpendPat::AllFrom(k) => {
+						let nch = total / 1024 + 1;
+						let from = (*k as u64 % nch) * 1024;
+						keys.iter().filter(|x| **x >= from).cloned().collect()
+					}
+				};
+				spend_idx.sort();
+				spend_idx.dedup();
+				let inputs: Vec<CommitWrapper> = spend_idx.iter().map(|i| CommitWrapper::from(prev.unspent[i])).collect();
+				let outputs: Vec<Output> = (0..*n_out as u64)
+					.map(|_| {
+						counter += 1;
+						Output::new(OutputFeatures::Plain, synth_commit(c.salt, counter), dummy_proof())
+					})
+					.collect();
+				// properly signed kernel: TxHashSet::open verifies the first kernel of the
+				// kernel MMR to detect the protocol version of the data file
+				let kernels: Vec<TxKernel> = vec![sign_kernel(KernelFeatures::Coinbase, &scalar_from(format!("c15k{}-{}", c.salt, counter).as_bytes()))];
+				let body = TransactionBody::init(Inputs::CommitOnly(inputs), &outputs, &kernels, false).map_err(|e| Fail::new("harness:body", format!("{:?}", e)))?;
+				let height = prev.header.height + 1;
+				let mut header = BlockHeader::default();
+				header.height = height;
+				header.version = grin_core::consensus::header_version(height);
+				header.prev_hash = prev.header.hash();
+				header.timestamp = prev.header.timestamp + chrono::Duration::seconds(60);
+				header.pow.total_difficulty = prev.header.pow.total_difficulty + Difficulty::from_num(1);
+				let hx = refmmr::blake(&[b"c15-pow", &c.salt.to_be_bytes(), &counter.to_be_bytes(), &(i as u64).to_be_bytes()]);
+				// unique pseudo proof (the header hash is the hash of the packed nonces)
+				header.pow.proof = Proof {
+					edge_bits: 29,
+					nonces: (0..grin_core::global::proofsize())
+						.map(|k| {
+							let y = refmmr::blake(&[&hx[..], &(k as u64).to_be_bytes()]);
+							u64::from_be_bytes([0, 0, 0, 0, y[0], y[1], y[2], y[3]]) & ((1 << 29) - 1)
+						})
+						.collect(),
+				};
+				let mut b = Block::with_header(header);
+				b.body = body;
+				// one unit of work, like pipe::process_block without the validation
+				let mut batch = low.store.batch().map_err(|e| Fail::new("harness:batch", format!("{:?}", e)))?;
+				let mut got: Option<((u64, u64, u64), Hash)> = None;
+				let r = txhashset::extending(&mut low.header_pmmr, &mut low.txhashset, &mut batch, |ext, batch| {
+					ext.extension.apply_block(&b, ext.header_extension, batch)?;
+					got = Some((ext.extension.sizes(), ext.extension.roots()?.output_roots.bitmap_root));
+					Ok(())
+				});
+				if let Err(e) = r {
+					fail!("apply-block-failed", "op {}: applying a synthetic block (h={}, {} outputs, {} spends) failed: {:?}", i, height, n_out, spend_idx.len(), e);
+				}
+				let (sizes, ext_root) = got.unwrap();
+				b.header.output_mmr_size = sizes.0;
+				b.header.kernel_mmr_size = sizes.2;
+				// the database copy only serves rewind (which reads the output commitments):
+				// store it with 1-byte proofs so that a synthetic 1000-output block does not
+				// exceed the LMDB headroom a real block never exceeds
+				let mut stored = b.clone();
+				for o in stored.body.outputs.iter_mut() {
+					o.proof.plen = 1;
+				}
+				batch.save_block(&stored).map_err(|e| Fail::new("harness:save", format!("{:?}", e)))?;
+				batch.save_block_header(&b.header).map_err(|e| Fail::new("harness:save", format!("{:?}", e)))?;
+				batch.save_body_head(&Tip::from_header(&b.header)).map_err(|e| Fail::new("harness:save", format!("{:?}", e)))?;
+				batch.save_header_head(&Tip::from_header(&b.header)).map_err(|e| Fail::new("harness:save", format!("{:?}", e)))?;
+				batch.commit().map_err(|e| Fail::new("harness:commit", format!("{:?}", e)))?;
+				// model
+				let mut unspent = prev.unspent.clone();
+				for i in &spend_idx {
+					unspent.remove(i);
+				}
+				for o in b.outputs() {
+					let pos0 = low.txhashset.get_output_pos(&o.commitment()).map_err(|e| Fail::new("harness:pos", format!("{:?}", e)))?;
+					unspent.insert(pmmr::n_leaves(pos0 + 1) - 1, o.commitment());
+				}
+				let n_total = pmmr::n_leaves(sizes.0);
+				ensure!(n_total == total + *n_out as u64, "output-count", "op {}: output MMR has {} leaves, expected {}", i, n_total, total + *n_out as u64);
+				let m = MBlock {
+					header: b.header.clone(),
+					unspent,
+					n_outputs_total: n_total,
+				};
+				let want = h(&ref_bitmap_root(m.unspent.keys().cloned()));
+				ensure!(ext_root == want, "bitmap-root-differs-from-scratch", "op {}: root inside the extension after apply differs from scratch", i);
+				max_chunks = max_chunks.max(n_total / 1024 + 1);
+				// outputs created after a gap of all-zero trailing chunks
+				if *n_out > 0 && prev.unspent.keys().max().map(|x| x / 1024 + 1).unwrap_or(0) < total / 1024 {
+					gap = true;
+				}
+				chain.push(m);
+			}
+			EOp::Rewind { k } => {
+				let k = (*k as usize).min(chain.len() - 1);
+				if k == 0 {
+					continue;
+				}
+				let target = chain[chain.len() - 1 - k].clone();
+				let before_chunks = chain.last().unwrap().n_outputs_total / 1024;
+				let mut batch = low.store.batch().map_err(|e| Fail::new("harness:batch", format!("{:?}", e)))?;
+				let th = target.header.clone();
+				let r = txhashset::extending(&mut low.header_pmmr, &mut low.txhashset, &mut batch, |ext, batch| {
+					ext.extension.rewind(&th, batch)?;
+					Ok(ext.extension.roots()?.output_roots.bitmap_root)
+				});
+				let ext_root = match r {
+					Ok(x) => x,
+					Err(e) => fail!("rewind-failed", "op {}: rewinding {} synthetic blocks failed: {:?}", i, k, e),
+				};
+				batch.save_body_head(&Tip::from_header(&th)).map_err(|e| Fail::new("harness:save", format!("{:?}", e)))?;
+				batch.save_header_head(&Tip::from_header(&th)).map_err(|e| Fail::new("harness:save", format!("{:?}", e)))?;
+				batch.commit().map_err(|e| Fail::new("harness:commit", format!("{:?}", e)))?;
+				chain.truncate(chain.len() - k);
+				let want = h(&ref_bitmap_root(target.unspent.keys().cloned()));
+				ensure!(ext_root == want, "bitmap-root-differs-from-scratch", "op {}: root inside the extension after rewinding {} blocks differs from scratch", i, k);
+				if target.n_outputs_total / 1024 < before_chunks {
+					crossed_back = true;
+				}
+			}
+			EOp::Reopen => {
+				drop(low);
+				low = open_low(&dir).map_err(|e| Fail::new("reopen-failed", e))?;
+				reopened = true;
+			}
+		}
+		check(&low, chain.last().unwrap(), &format!("after op {} ({:?})", i, std::mem::discriminant(op)))?;
+	}
+	// the accumulator rebuilt on open equals the incrementally maintained one
+	drop(low);
+	let low = open_low(&dir).map_err(|e| Fail::new("reopen-failed", e))?;
+	check(&low, chain.last().unwrap(), "after final reopen")?;
+	if counting {
+		ev.eval();
+		ev.class(&format!("ext_histories_max_chunks:{}", max_chunks.min(7)));
+		if crossed_back {
+			ev.class("ext_histories_rewind_across_chunk_boundary");
+		}
+		if reopened {
+			ev.class("ext_histories_with_reopen");
+		}
+		if gap {
+			ev.class("ext_histories_outputs_after_empty_trailing_chunks");
+		}
+		if max_chunks >= 2 && crossed_back {
+			ev.nontrivial(&("ext", max_chunks, c.ops.len(), reopened));
+		}
+	}
+	drop(low);
+	let _ = std::fs::remove_dir_all(&dir);
 	Ok(())
+}
+
+// ------------------------------------------------------------------ part "chain": real blocks, header commitment, wrong bitmaps
+
+#[derive(Clone, Debug, Serialize, Deserialize)]
+pub struct CCase {
+	pub blocks: Vec<RawBlock>,
+	pub forge: Vec<(u8, u16)>,
+}
+
+pub fn ccase() -> impl Strategy<Value = CCase> {
+	let blk = (raw_block(0), prop_oneof![9 => Just(0u8), 3 => Just(1u8), 3 => 101u8..104]).prop_map(|(mut b, p)| {
+		b.parent = p;
+		b
+	});
+	(prop::collection::vec(blk, 4..14), prop::collection::vec((0u8..4, any::<u16>()), 1..4)).prop_map(|(blocks, forge)| CCase { blocks, forge })
+}
+
+fn model_unspent_idx(cb: &ChainBox, m: &Model) -> Result<Vec<u64>, Fail> {
+	let mut v = vec![];
+	for c in m.utxo.keys() {
+		let pos0 = cb.c().get_output_pos(&Commitment::from_vec(c.clone())).map_err(|e| Fail::new("get_output_pos-err", format!("{:?}", e)))?;
+		v.push(pmmr::n_leaves(pos0 + 1) - 1);
+	}
+	Ok(v)
+}
+
+pub fn chain_case(ctx: &Ctx, c: &CCase, counting: bool) -> PResult {
+	init_thread();
+	let ev = &ctx.ev;
+	let mut cb = ChainBox::open(&ctx.scratch_dir("c15c")).map_err(|e| Fail::new("init-fresh", e))?;
+	let mut w = World::new(&cb.genesis, true);
+	let mut head = 0usize;
+	// up to height 7: header version 3 from height 6, the merged root is then committed
+	let mut raws: Vec<RawBlock> = (0..7)
+		.map(|_| RawBlock {
+			parent: 0,
+			cb_key: 0,
+			txs: vec![],
+			dt: 60,
+			diff: 1,
+			neg: Neg::None,
+			neg_pick: 0,
+		})
+		.collect();
+	raws.extend(c.blocks.iter().cloned());
+	let mut forge_left = c.forge.clone();
+	let mut reorgs = 0;
+	for (i, raw) in raws.iter().enumerate() {
+		let built = w.build(cb.c(), raw, head).map_err(|e| Fail::new("builder", format!("op {}: {}", i, e)))?;
+		let Ok(model) = built.verdict.clone() else { continue };
+		// forged sibling first: same block, output_root committing to a wrong bitmap
+		if built.parent == head && built.block.header.version.0 >= 3 && !forge_left.is_empty() && i >= 7 {
+			let (kind, pk) = forge_left.remove(0);
+			// pmmr_root and honest bitmap root of the post-block state through a read-only extension
+			let post = {
+				let hp = cb.c().header_pmmr();
+				let tx = cb.c().txhashset();
+				let mut hp = hp.write();
+				let mut tx = tx.write();
+				let b = built.block.clone();
+				txhashset::extending_readonly(&mut hp, &mut tx, |ext, batch| {
+					ext.extension.apply_block(&b, ext.header_extension, batch)?;
+					ext.extension.roots()
+				})
+			};
+			if let Ok(roots) = post {
+				// honest header commits to H(size | pmmr_root | bitmap_root)
+				let size = built.block.header.output_mmr_size;
+				let merged = |br: &refmmr::H32| h(&refmmr::blake(&[&size.to_be_bytes(), &roots.output_roots.pmmr_root.to_vec(), &br[..]]));
+				// reference bitmap of the post-block state: model unspent set; new outputs get
+				// the next leaf indices in body order
+				let mut idx = model_unspent_idx(&cb, &w.nodes[head].model)?;
+				let spent: Vec<Vec<u8>> = {
+					let ins: Vec<CommitWrapper> = built.block.inputs().into();
+					ins.iter().map(|c| c.commitment().0.to_vec()).collect()
+				};
+				let spent_idx: Vec<u64> = spent
+					.iter()
+					.filter_map(|c| cb.c().get_output_pos(&Commitment::from_vec(c.clone())).ok())
+					.map(|p| pmmr::n_leaves(p + 1) - 1)
+					.collect();
+				idx.retain(|x| !spent_idx.contains(x));
+				let first_new = pmmr::n_leaves(w.nodes[head].block.header.output_mmr_size);
+				for k in 0..built.block.outputs().len() as u64 {
+					idx.push(first_new + k);
+				}
+				let honest = ref_bitmap_root(idx.iter().cloned());
+				ensure!(
+					merged(&honest) == built.block.header.output_root,
+					"header-output-root-not-merged-reference",
+					"op {}: header.output_root of a block the chain produced is not H(size|pmmr_root|bitmap root from scratch)",
+					i
+				);
+				let mut wrong = idx.clone();
+				match kind {
+					0 => {
+						// one bit flipped: drop one unspent index
+						if wrong.len() > 1 {
+							wrong.remove((pk as usize * wrong.len()) >> 16);
+						}
+					}
+					1 => wrong.push(first_new + built.block.outputs().len() as u64 + (pk % 50) as u64), // an extra set bit
+					2 => wrong.push(1024 * (2 + (pk % 3) as u64)),                                        // an extra (padding) chunk with a bit
+					_ => wrong.clear(),                                                                       // empty bitmap
+				}
+				let wrong_root = ref_bitmap_root(wrong.iter().cloned());
+				if wrong_root != honest {
+					let mut fb = built.block.clone();
+					fb.header.output_root = merged(&wrong_root);
+					seal(&mut fb, PowMode::Real, &w.nodes[head].block.header).map_err(|e| Fail::new("builder", e))?;
+					let res = cb.c().process_block(fb, opts(PowMode::Real));
+					ensure!(res.is_err(), "wrong-bitmap-accepted", "op {}: block whose output_root commits to a wrong bitmap (kind {}) was accepted", i, kind);
+					if counting {
+						ev.class(&format!("wrong_bitmap_rejected:{}", kind));
+						ev.nontrivial(&("forge", kind, built.block.outputs().len(), built.block.inputs().len()));
+					}
+				}
+			}
+		}
+		match cb.c().process_block(built.block.clone(), opts(PowMode::Real)) {
+			Ok(tip) => {
+				let n = w.push(&built, model);
+				if tip.is_some() {
+					if built.parent != head {
+						reorgs += 1;
+					}
+					head = n;
+				}
+			}
+			Err(e) => fail!("valid-block-rejected", "op {}: {}", i, err_name(&e)),
+		}
+		// committed bitmap root equals from-scratch over the model's unspent set
+		let idx = model_unspent_idx(&cb, &w.nodes[head].model)?;
+		let want = h(&ref_bitmap_root(idx.iter().cloned()));
+		let got = cb.c().txhashset().read().roots().map_err(|e| Fail::new("roots-err", format!("{:?}", e)))?.output_roots.bitmap_root;
+		ensure!(got == want, "bitmap-root-differs-from-scratch", "op {}: chain bitmap root differs from scratch over the {} unspent outputs of the model (h={})", i, idx.len(), w.nodes[head].height());
+		if i % 5 == 4 {
+			cb.reopen().map_err(|e| Fail::new("reopen-failed", e))?;
+			let got = cb.c().txhashset().read().roots().map_err(|e| Fail::new("roots-err", format!("{:?}", e)))?.output_roots.bitmap_root;
+			ensure!(got == want, "bitmap-root-changed-by-restart", "op {}: bitmap root after reopen differs", i);
+		}
+	}
+	if counting {
+		ev.eval();
+		if reorgs > 0 {
+			ev.class("chain_histories_with_reorg");
+			ev.nontrivial(&("chain", reorgs, c.blocks.len()));
+		}
+	}
+	Ok(())
+}
+
+pub fn run(ctx: &Ctx) -> HResult<()> {
+	init_global();
+	let ev = &ctx.ev;
+	ev.rule("(ext) histories of block application and rewind through the unit-of-work API the block pipeline uses (txhashset::extending, Extension::apply_block / rewind) with synthetic blocks (dummy proofs: that path does not verify them) creating up to several thousand outputs (several 1024-bit chunks), spends concentrated in old chunks, at chunk boundaries (1023/1024/2047/2048…), whole chunks, the last partial chunk, rewinds that shrink the output set across a chunk boundary, and reopen; after every step the bitmap root (inside the extension and committed) is compared with a root computed from scratch from the reference unspent index set with the harness's own MMR/blake2b; (chain) real mined blocks with forks/reorgs/reopen: committed root vs. from scratch over the replay model, the header's output_root equals H(size|pmmr_root|reference bitmap root), and blocks whose output_root commits to a wrong bitmap (bit dropped, bit added, extra chunk, empty) are rejected; non-trivial = history touching >= 2 chunks with a rewind crossing a chunk boundary / forged-bitmap block / chain history with a reorg");
+	ev.assume("leaf index of an output taken from grin's output_pos index (checked independently by C02); chunk encoding: 128 bytes, most significant bit first");
+	if let Some((case, f)) = pbt_proc(ctx, "ext", ctx.n(2400, 40000), 16) {
+		ctx.report("ext", &f.sig, case, &f.msg);
+	}
+	if let Some((case, f)) = pbt_proc(ctx, "chain", ctx.n(320, 5000), 16) {
+		ctx.report("chain", &f.sig, case, &f.msg);
+	}
+	ev.sample("ext", || serde_json::to_value(sample_one(ctx.derive_seed("s", 0), &ecase())).unwrap());
+	let _ = json!(0);
+	Ok(())
+}
+
+pub fn part(ctx: &Ctx, part: &str, seed: u64, cases: u32) -> Option<(Value, Fail)> {
+	init_global();
+	match part {
+		"ext" => run_part(ctx, seed, cases, &ecase(), |c, counting| ext_case(ctx, c, counting)),
+		"chain" => run_part(ctx, seed, cases, &ccase(), |c, counting| chain_case(ctx, c, counting)),
+		_ => None,
+	}
+}
+
+pub fn replay(ctx: &Ctx, part: &str, case: &Value) -> PResult {
+	init_global();
+	let bad = |e: serde_json::Error| Fail::new("harness:replay-parse", e.to_string());
+	match part {
+		"ext" => ext_case(ctx, &serde_json::from_value(case.clone()).map_err(bad)?, false),
+		"chain" => chain_case(ctx, &serde_json::from_value(case.clone()).map_err(bad)?, false),
+		_ => Ok(()),
+	}
 }
